@@ -14,6 +14,8 @@ use yui::{Ratio, Ring, RingOps, FF, FF2};
 use yui_homology::utils::ChainReducer;
 use yui_homology::{ChainComplexTrait, GenericChainComplex, GridTrait, SummandTrait};
 use yui_matrix::sparse::pivot::{PivotCondition, PivotType};
+use yui_matrix::sparse::schur::Schur;
+use yui_matrix::sparse::triang::TriangularType;
 use yui_matrix::sparse::{MatTrait, SpMat, SpVec};
 use yv::*;
 use yv::rings::Txt;
@@ -34,6 +36,12 @@ where for<'x> &'x Self: RingOps<Self> {
     fn lambda(r: &mut Rng) -> Self;
     /// multipliers of the elementary operations used for conjugation
     fn mult(r: &mut Rng) -> Self { Self::from_i(r.range(-2, 2)) }
+    /// canonical text for exact comparison with the Lean model (normal form of the value, not of the representation)
+    fn canon(&self) -> String { self.t() }
+    /// a random unit
+    fn unit(r: &mut Rng) -> Self { if r.bool() { Self::one() } else { -Self::one() } }
+    /// a random non-zero non-unit (if the ring has one)
+    fn nonunit(_r: &mut Rng) -> Option<Self> { None }
     /// homology by the library (rank + torsion per degree) — only over PIDs
     fn lib_homology(_c: &Cx<Self>) -> Option<String> { None }
 }
@@ -66,6 +74,7 @@ impl Sc for i64 {
     fn t(&self) -> String { self.to_string() }
     fn from_i(x: i64) -> Self { x }
     fn lambda(r: &mut Rng) -> Self { *r.pick(&[1, 1, 1, -1, -1, 2, 3, -2, 4, 6, 0]) }
+    fn nonunit(r: &mut Rng) -> Option<Self> { Some(*r.pick(&[2, -2, 3, 5])) }
     fn lib_homology(c: &Cx<Self>) -> Option<String> { hom_string(c, false) }
 }
 impl Sc for Ratio<i64> {
@@ -77,6 +86,14 @@ impl Sc for Ratio<i64> {
         match r.below(6) { 0 => Ratio::from(0), 1 => Ratio::from(1), 2 => Ratio::from(-1), 3 => Ratio::new(1, 2), 4 => Ratio::new(-3, 2), _ => Ratio::from(2) }
     }
     fn mult(r: &mut Rng) -> Self { if r.chance(1, 4) { Ratio::new(r.range(-3, 3), *r.pick(&[2, 3])) } else { Ratio::from(r.range(-2, 2)) } }
+    fn canon(&self) -> String {
+        let (n, d) = (*self.numer() as i128, *self.denom() as i128);
+        fn gcd(a: i128, b: i128) -> i128 { if b == 0 { a.abs() } else { gcd(b, a % b) } }
+        let g = gcd(n, d).max(1);
+        let sg = if d < 0 { -1 } else { 1 };
+        format!("{}/{}", sg * n / g, sg * d / g)
+    }
+    fn unit(r: &mut Rng) -> Self { match r.below(4) { 0 => Ratio::from(1), 1 => Ratio::from(-1), 2 => Ratio::new(1, 2), _ => Ratio::from(-3) } }
     fn lib_homology(c: &Cx<Self>) -> Option<String> { hom_string(c, true) }
 }
 impl Sc for FF2 {
@@ -85,6 +102,7 @@ impl Sc for FF2 {
     fn t(&self) -> String { self.txt() }
     fn from_i(x: i64) -> Self { FF2::from(x.rem_euclid(2) as i32) }
     fn lambda(r: &mut Rng) -> Self { Self::from_i(if r.chance(1, 5) { 0 } else { 1 }) }
+    fn unit(_r: &mut Rng) -> Self { Self::one() }
     fn lib_homology(c: &Cx<Self>) -> Option<String> { hom_string(c, true) }
 }
 impl Sc for FF<3> {
@@ -93,6 +111,8 @@ impl Sc for FF<3> {
     fn t(&self) -> String { self.txt() }
     fn from_i(x: i64) -> Self { FF::<3>::new(x.rem_euclid(3) as i32) }
     fn lambda(r: &mut Rng) -> Self { Self::from_i(*r.pick(&[1, 1, 2, 2, 0])) }
+    fn canon(&self) -> String { (*self.rep() as i64).rem_euclid(3).to_string() }
+    fn unit(r: &mut Rng) -> Self { Self::from_i(1 + r.below(2) as i64) }
     fn lib_homology(c: &Cx<Self>) -> Option<String> { hom_string(c, true) }
 }
 impl Sc for ZH {
@@ -106,6 +126,7 @@ impl Sc for ZH {
         cs.iter().map(|c| c.to_string()).collect::<Vec<_>>().join(",")
     }
     fn from_i(x: i64) -> Self { ZH::from_const(x) }
+    fn nonunit(r: &mut Rng) -> Option<Self> { Some(match r.below(3) { 0 => ZH::variable(), 1 => ZH::from_const(2), _ => ZH::variable() + ZH::from_const(1) }) }
     fn lambda(r: &mut Rng) -> Self {
         let h = || ZH::variable();
         match r.below(10) {
